@@ -127,8 +127,11 @@ func (*c15) Rule() string {
 		"locks, values with comments/multi-doc/BOM, schemas, 0-4 templates and 0-5 files with nested/unicode/dot names and binary content, BOMs, " +
 		"0-2 dependencies nested to depth 2; one case in five deliberately outside the well-formed charts) through Save+Load and SaveDir+Load; " +
 		"files: 1-9 names from the reserved/near-reserved name pool through LoadFiles; dir: directory trees with .helmignore rule sets over the " +
-		"documented syntax through LoadDir and Package.Run. non-trivial = a chart was loaded (rt/files/dir) or an invalid chart was refused after " +
-		"a successful directory load; distinct = hash of (case, observation)"
+		"documented syntax (partly derived from the generated tree) through LoadDir and Package.Run; " +
+		"round 4: dependency names that collide as prefixes or by case, archives nested 2-3 levels, shuffled real trees through LoadFiles, " +
+		".prov files at several depths, SaveDir's tree compared with the model; match: (pattern, names) through filepath.Match and " +
+		"ignore.Parse/Rules.Ignore (structured + malformed + exhaustive short patterns). non-trivial = a chart was loaded (rt/files/dir), " +
+		"a pattern matched a name (match); distinct = hash of (case, observation)"
 }
 
 // ---------------------------------------------------------------- building real charts
